@@ -896,6 +896,18 @@ dir-contents top : -selection dir-contents any file : name f num-files == 2
      'text': "[setup]\ndir d = {\n  dir n = {\n    file k\n  }\n  dir n += dir-contents-of -rel-home src2\n}\n"},
     {'name': 'copy-twice-into-same-dir', 'expect': 'HARD_ERROR', 'act': None,
      'text': "[setup]\ndir d = dir-contents-of -rel-home src2\ndir d += dir-contents-of -rel-home src2\n"},
+    # a population that fails at run time is a HARD_ERROR in whatever phase the instruction stands
+    {'name': 'clash-in-before-assert', 'expect': 'HARD_ERROR', 'act': None,
+     'text': "[setup]\ndir d = {\n  file a = 'first'\n}\n[before-assert]\ndir d += dir-contents-of -rel-home src1\n"},
+    {'name': 'clash-in-assert', 'expect': 'HARD_ERROR', 'act': None,
+     'text': "[setup]\ndir d = {\n  file a = 'first'\n}\n[assert]\ndir d += dir-contents-of -rel-home src1\n"},
+    {'name': 'clash-in-assert-nested-list', 'expect': 'HARD_ERROR', 'act': None,
+     'text': "[setup]\ndir d = {\n  dir n = {\n    dir m = {\n      file k\n    }\n  }\n}\n[assert]\n"
+             "dir d += {\n  dir n += {\n    dir m += {\n      file k\n    }\n  }\n}\n"},
+    {'name': 'clash-in-cleanup', 'expect': 'HARD_ERROR', 'act': None,
+     'text': "[setup]\ndir d = {\n  dir s\n}\n[cleanup]\ndir d += dir-contents-of -rel-home src1\n"},
+    {'name': 'append-to-missing-dir-in-assert', 'expect': 'HARD_ERROR', 'act': None,
+     'text': "[assert]\ndir nodir += {\n  file k\n}\n"},
 ]
 
 
